@@ -1002,7 +1002,7 @@ Qed.
 Theorem wf_write_ok g : wf g = true -> str_eqb (h_type (canon_header (g_hdr g))) (s2l supported_type) = true ->
   exists b, write g = Ok b.
 Proof.
-  unfold wf_g. intros H T. apply andb_prop in H as [Hh H].
+  unfold wf_g, wf_rest. intros H T. apply andb_prop in H as [Hh H].
   destruct (unit_scale_of (h_unit (g_hdr g))) as [scw|e] eqn:U; [|discriminate]. rewrite T in H.
   destruct (conv_len colname_lengths _) as [L|] eqn:EL; [|discriminate].
   destruct (conv_len layername_lengths _) as [LL|] eqn:ELL; [|discriminate].
@@ -1014,7 +1014,7 @@ Qed.
 (** THE round trip: reading what was written gives the canonical geometry *)
 Theorem read_write_roundtrip g b : wf g = true -> write g = Ok b -> read b = Ok (canon g).
 Proof.
-  unfold wf_g. intros H Wr. apply andb_prop in H as [Hh H].
+  unfold wf_g, wf_rest. intros H Wr. apply andb_prop in H as [Hh H].
   destruct (header_reads _ Hh) as [hs [hl [R [W [Lo Rd]]]]].
   destruct (unit_scale_of (h_unit (g_hdr g))) as [scw|e] eqn:U; [|discriminate].
   destruct (str_eqb (h_type (canon_header (g_hdr g))) (s2l supported_type)) eqn:T.
